@@ -228,6 +228,162 @@ def callbig(q: uint256, n: uint256) -> (uint256, uint256[20], uint256, DynArray[
     return c0, arr, c1, d, c2, r + r2
 """
 
+# concat of fixed-size bytesM operands as the LAST allocation of an internal function's frame; the caller's first
+# variable (a canary) lies directly above the callee frame
+CONCATM = f"""
+@internal
+def cat2(a: bytes31, b: bytes1) -> Bytes[32]:
+    return concat(a, b)
+
+@internal
+def cat3(a: bytes15, b: bytes16, c: bytes1) -> Bytes[32]:
+    return concat(a, b, c)
+
+@internal
+def cat1_1(a: bytes1, b: bytes1) -> Bytes[2]:
+    return concat(a, b)
+
+@internal
+def cat32_32(a: bytes32, b: bytes32) -> Bytes[64]:
+    return concat(a, b)
+
+@internal
+def catmix(a: bytes31, b: Bytes[5], c: bytes1) -> Bytes[37]:
+    return concat(a, b, c)
+
+@external
+def top2(a: bytes31, b: bytes1) -> (uint256, Bytes[32], uint256):
+    c0: uint256 = {C0}
+    r: Bytes[32] = self.cat2(a, b)
+    c1: uint256 = {C1}
+    return c0, r, c1
+
+@external
+def top3(a: bytes15, b: bytes16, c: bytes1) -> (uint256, Bytes[32], uint256):
+    c0: uint256 = {C0}
+    r: Bytes[32] = self.cat3(a, b, c)
+    c1: uint256 = {C1}
+    return c0, r, c1
+
+@external
+def top11(a: bytes1, b: bytes1) -> (uint256, Bytes[2], uint256):
+    c0: uint256 = {C0}
+    r: Bytes[2] = self.cat1_1(a, b)
+    c1: uint256 = {C1}
+    return c0, r, c1
+
+@external
+def top64(a: bytes32, b: bytes32) -> (uint256, Bytes[64], uint256):
+    c0: uint256 = {C0}
+    r: Bytes[64] = self.cat32_32(a, b)
+    c1: uint256 = {C1}
+    return c0, r, c1
+
+@external
+def topmix(a: bytes31, b: Bytes[5], c: bytes1) -> (uint256, Bytes[37], uint256):
+    c0: uint256 = {C0}
+    r: Bytes[37] = self.catmix(a, b, c)
+    c1: uint256 = {C1}
+    return c0, r, c1
+
+@internal
+def inner_arg(x: uint256, a: bytes31, b: bytes1) -> (uint256, Bytes[32]):
+    # x is this function's first argument, directly above cat2's frame
+    r: Bytes[32] = self.cat2(a, b)
+    return x, r
+
+@external
+def top_arg(x: uint256, a: bytes31, b: bytes1) -> (uint256, Bytes[32]):
+    return self.inner_arg(x, a, b)
+
+# other builtins whose result buffer is the last allocation of the callee frame
+@internal
+def last_slice(b: Bytes[40], s: uint256, l: uint256) -> Bytes[40]:
+    return slice(b, s, l)
+
+@internal
+def last_encode(n: uint256, b: Bytes[40]) -> Bytes[192]:
+    return abi_encode(n, b)
+
+@internal
+def last_u2s(n: uint256) -> String[78]:
+    return uint2str(n)
+
+@internal
+def inner_edge(x: uint256, b: Bytes[40], s: uint256, l: uint256, n: uint256) -> (uint256, Bytes[40], Bytes[192], String[78], uint256):
+    r1: Bytes[40] = self.last_slice(b, s, l)
+    r2: Bytes[192] = self.last_encode(n, b)
+    r3: String[78] = self.last_u2s(n)
+    return x, r1, r2, r3, x
+
+@external
+def top_edge(x: uint256, b: Bytes[40], s: uint256, l: uint256, n: uint256) -> (uint256, Bytes[40], Bytes[192], String[78], uint256):
+    return self.inner_edge(x, b, s, l, n)
+"""
+
+# index expressions whose evaluation shrinks the array being indexed: the bounds check must use the length AFTER the
+# index has been evaluated (a pipeline may instead reject such a program at compile time)
+SHRINK = f"""
+c0: uint256
+arr: DynArray[uint256, 4]
+c1: uint256
+
+@external
+def setup(n: uint256):
+    self.c0 = {C0}
+    self.arr = []
+    for j: uint256 in range(4):
+        if j >= n:
+            break
+        self.arr.append(10 + j)
+    self.c1 = {C1}
+
+@internal
+def _pop_ret(k: uint256) -> uint256:
+    self.arr.pop()
+    return k
+
+@external
+def read_shrink(k: uint256) -> uint256:
+    return self.arr[self._pop_ret(k)]
+
+@external
+def write_shrink(k: uint256, v: uint256):
+    self.arr[self._pop_ret(k)] = v
+
+@internal
+def _push_ret(k: uint256) -> uint256:
+    self.arr.append(77)
+    return k
+
+@external
+def read_grow(k: uint256) -> uint256:
+    return self.arr[self._push_ret(k)]
+
+@external
+@view
+def dump() -> (uint256, DynArray[uint256, 4], uint256):
+    return self.c0, self.arr, self.c1
+"""
+
+SHRINK_MEM = f"""
+@external
+def mem_read(idx: uint256) -> (uint256, uint256, uint256):
+    x: uint256 = {C0}
+    b: DynArray[uint256, 4] = [10, 11, idx]
+    y: uint256 = {C1}
+    r: uint256 = b[b.pop()]
+    return x, r, y
+
+@external
+def mem_write(idx: uint256, v: uint256) -> (uint256, DynArray[uint256, 4], uint256):
+    x: uint256 = {C0}
+    b: DynArray[uint256, 4] = [10, 11, idx]
+    y: uint256 = {C1}
+    b[b.pop()] = v
+    return x, b, y
+"""
+
 CTOR = f"""
 IA: immutable(uint256)
 IB: immutable(uint256[3])
@@ -499,6 +655,119 @@ def _run(ctx, cfgs, comp, viol, stats, rnd):
             if got != exp:
                 viol("internal calls with large frames: caller's variables / canaries changed or wrong result", FRAMES, cfg, f"callbig({q},{n})", exp, got)
                 return n_cases, True
+        # ---------------- index expression shrinking the indexed array
+        for name, src in (("SHRINK", SHRINK), ("SHRINK_MEM", SHRINK_MEM)):
+            try:
+                from vyper.exceptions import VyperException, VyperInternalException
+                from .configs import compile_src
+                with warnings.catch_warnings():
+                    warnings.simplefilter("ignore")
+                    out = compile_src(src, cfg, formats=("bytecode",))
+            except (VyperException, VyperInternalException):
+                # a pipeline may refuse such a program (legacy: "risky overlap"); whether the diagnostic is user-facing is C20
+                stats["shrink_rejected_at_compile_time"] = stats.get("shrink_rejected_at_compile_time", 0) + 1
+                continue
+            ch = Chain(cfg.evm)
+            addr = ch.deploy(bytes.fromhex(out["bytecode"][2:]))
+            if name == "SHRINK":
+                for n in range(5):
+                    for k in (0, 1, 2, 3, 4, 2**256 - 1):
+                        if n < 4:    # growing index expression: the element appended while evaluating the index is addressable
+                            ch.call(addr, method_id("setup(uint256)") + w(n))
+                            r = ch.call(addr, method_id("read_grow(uint256)") + w(k))
+                            arr_g = [10 + j for j in range(n)] + [77]
+                            okg = k < len(arr_g)
+                            n_cases += 1
+                            if r.ok != okg or (okg and r.out != w(arr_g[k])):
+                                viol("index expression that appends to the indexed array: bounds must be checked against the length after the "
+                                     "index was evaluated", src, cfg, f"setup({n}); read_grow({hex(k)})", arr_g[k] if okg else "revert",
+                                     r.out.hex() if r.ok else "revert")
+                                return n_cases, True
+                        for mode in ("read", "write"):
+                            ch.call(addr, method_id("setup(uint256)") + w(n))
+                            ln = min(n, 4)
+                            arr = [10 + j for j in range(ln)]
+                            v = rnd.randrange(1, 2**256)
+                            ok = ln >= 1 and k < ln - 1
+                            if mode == "read":
+                                r = ch.call(addr, method_id("read_shrink(uint256)") + w(k))
+                                good = r.ok == ok and (not ok or r.out == w(arr[k]))
+                                call = f"setup({n}); read_shrink({hex(k)})"
+                            else:
+                                r = ch.call(addr, method_id("write_shrink(uint256,uint256)") + w(k) + w(v))
+                                good = r.ok == ok
+                                call = f"setup({n}); write_shrink({hex(k)}, {v})"
+                            want = list(arr)
+                            if ok:
+                                want = arr[:-1]
+                                if mode == "write":
+                                    want[k] = v
+                            d = ch.call(addr, method_id("dump()"))
+                            got = decode(["uint256", "uint256[]", "uint256"], d.out) if d.ok else None
+                            n_cases += 1
+                            stats["shrink"] = stats.get("shrink", 0) + 1
+                            if not good or got != (C0, tuple(want), C1):
+                                viol("index expression that pops from the indexed array: bounds must be checked against the length after the index "
+                                     "was evaluated", src, cfg, call, ("ok" if ok else "revert", want), ("ok" if r.ok else "revert", r.out.hex(), got))
+                                return n_cases, True
+            else:
+                for idx in (0, 1, 2, 3, 2**256 - 1):
+                    ok = idx < 2
+                    r = ch.call(addr, method_id("mem_read(uint256)") + w(idx))
+                    n_cases += 1
+                    stats["shrink"] = stats.get("shrink", 0) + 1
+                    if r.ok != ok or (ok and r.out != w(C0) + w(10 + idx) + w(C1)):
+                        viol("b[b.pop()] on a memory DynArray: read checked against the old length", src, cfg, f"mem_read({hex(idx)})",
+                             "ok" if ok else "revert", r.out.hex() if r.ok else "revert")
+                        return n_cases, True
+                    v = rnd.randrange(1, 2**256)
+                    r = ch.call(addr, method_id("mem_write(uint256,uint256)") + w(idx) + w(v))
+                    exp = None
+                    if ok:
+                        bb_ = [10, 11]
+                        bb_[idx] = v
+                        exp = (C0, tuple(bb_), C1)
+                    got = decode(["uint256", "uint256[]", "uint256"], r.out) if r.ok else None
+                    if r.ok != ok or got != exp:
+                        viol("b[b.pop()] = v on a memory DynArray: write checked against the old length", src, cfg, f"mem_write({hex(idx)}, {v})", exp, got)
+                        return n_cases, True
+        # ---------------- concat of bytesM operands at the end of a callee frame
+        out = comp(CONCATM, cfg)
+        ch = Chain(cfg.evm)
+        addr = ch.deploy(bytes.fromhex(out["bytecode"][2:]))
+        rb = lambda k: bytes(rnd.randrange(1, 256) for _ in range(k))
+        pad = lambda b_: b_ + b"\0" * (32 - len(b_))
+        for _ in range(3):
+            tests = []
+            a, b = rb(31), rb(1)
+            tests.append(("top2(bytes31,bytes1)", pad(a) + pad(b), ["uint256", "bytes", "uint256"], (C0, a + b, C1)))
+            a, b, c = rb(15), rb(16), rb(1)
+            tests.append(("top3(bytes15,bytes16,bytes1)", pad(a) + pad(b) + pad(c), ["uint256", "bytes", "uint256"], (C0, a + b + c, C1)))
+            a, b = rb(1), rb(1)
+            tests.append(("top11(bytes1,bytes1)", pad(a) + pad(b), ["uint256", "bytes", "uint256"], (C0, a + b, C1)))
+            a, b = rb(32), rb(32)
+            tests.append(("top64(bytes32,bytes32)", a + b, ["uint256", "bytes", "uint256"], (C0, a + b, C1)))
+            a, b, c = rb(31), rb(rnd.randint(0, 5)), rb(1)
+            tests.append(("topmix(bytes31,bytes,bytes1)", encode(["bytes31", "bytes", "bytes1"], [a, b, c]), ["uint256", "bytes", "uint256"], (C0, a + b + c, C1)))
+            a, b = rb(31), rb(1)
+            x = rnd.randrange(1, 2**256)
+            tests.append(("top_arg(uint256,bytes31,bytes1)", w(x) + pad(a) + pad(b), ["uint256", "bytes"], (x, a + b)))
+            bb = rb(rnd.choice([0, 1, 31, 32, 33, 40]))
+            s_ = rnd.randint(0, len(bb))
+            l_ = rnd.randint(0, len(bb) - s_)
+            n_ = rnd.choice([0, 1, 2**255, 2**256 - 1, rnd.randrange(2**256)])
+            x = rnd.randrange(1, 2**256)
+            tests.append(("top_edge(uint256,bytes,uint256,uint256,uint256)", encode(["uint256", "bytes", "uint256", "uint256", "uint256"], [x, bb, s_, l_, n_]),
+                          ["uint256", "bytes", "bytes", "string", "uint256"], (x, bb[s_:s_ + l_], encode(["uint256", "bytes"], [n_, bb]), str(n_), x)))
+            for sig, data, rt, exp in tests:
+                r = ch.call(addr, method_id(sig) + data)
+                got = decode(rt, r.out) if r.ok else None
+                n_cases += 1
+                stats["concat"] += 1
+                if got != exp:
+                    viol("concat of bytesM operands at the end of a callee frame: result or the caller's adjacent variable changed",
+                         CONCATM, cfg, f"{sig} data=0x{data.hex()}", exp, got)
+                    return n_cases, True
         # ---------------- constructor: dynamic allocation next to staged immutables
         out = comp(CTOR, cfg)
         for n, blob in ((0, b"12345"), (3, b"hello world"), (10, bytes(range(100)))):
